@@ -4,7 +4,7 @@
 
 //go:build verif && (!goexperiment.jsonv2 || !go1.25)
 
-package jsonwire
+package jsonopts
 
 import "reflect"
 
